@@ -81,8 +81,9 @@ func (s *C13Stats) Merge(raw json.RawMessage) error {
 }
 
 type c13Check struct {
-	it   *harness.Interp
-	tier string
+	it     *harness.Interp
+	tier   string
+	either object.PanObject
 }
 
 func (c *c13Check) ID() string      { return "C13" }
@@ -105,14 +106,26 @@ func (c *c13Check) Init(tier string) {
 	c.tier = tier
 	if c.it == nil {
 		c.it = harness.NewInterp()
+		if prog, err := harness.Parse("1.try"); err == nil {
+			c.either = c.it.Run(prog, nil).Obj
+		}
 	}
+}
+
+// ownProp reports whether an Either value itself has (inherits) a property of that name.
+func (c *c13Check) ownProp(name string) bool {
+	if c.either == nil {
+		return false
+	}
+	_, ok := object.FindPropAlongProtos(c.either, object.GetSymHash(name))
+	return ok
 }
 
 var c13Kinds = []string{"Err", "TypeErr", "ValueErr", "ZeroDivisionErr", "NameErr", "NoPropErr", "AssertionErr", "NotImplementedErr", "SyntaxErr", "FileNotFoundErr", "StopIterErr"}
 
 // genChain draws a receiver and k steps. objMode: receiver is a user object whose
 // methods return self (so the chain stays on the object) or an int at the end.
-func c13Gen(t *tape.Tape) (prelude, recv string, steps []c13Step, nslots int) {
+func c13Gen(t *tape.Tape, ownProp func(string) bool) (prelude, recv string, steps []c13Step, nslots int) {
 	k := 1 + t.Intn(5)
 	id := 1
 	next := func() int { id++; return id - 1 }
@@ -120,7 +133,9 @@ func c13Gen(t *tape.Tape) (prelude, recv string, steps []c13Step, nslots int) {
 	if objMode {
 		// methods: ma returns self, mb returns self (with kwarg), mv is a plain value, mi returns an int
 		s1, s2, s3 := next(), next(), next()
-		prelude = fmt.Sprintf("o := {ma: m{|a| S(%d); self}, mb: m{|a, k: 0| S(%d); self}, mi: m{S(%d); 7}, v: 3}\n", s1, s2, s3)
+		// the methods' results depend on every argument they receive, so a dropped or
+		// reordered argument shows in the value
+		prelude = fmt.Sprintf("o := {ma: m{|a| S(%d); .bear({la: a})}, mb: m{|a, k: 0, j: 5| S(%d); .bear({lb: [a, k, j, \\_]})}, mi: m{S(%d); 7}, v: 3}\n", s1, s2, s3)
 		recv = "o"
 		for i := 0; i < k; i++ {
 			last := i == k-1
@@ -128,7 +143,14 @@ func c13Gen(t *tape.Tape) (prelude, recv string, steps []c13Step, nslots int) {
 			case 0:
 				steps = append(steps, c13Step{"method", fmt.Sprintf(".ma(%d)", t.Intn(9)), s1})
 			case 1:
-				steps = append(steps, c13Step{"method-kw", fmt.Sprintf(".mb(%d, k: %d)", t.Intn(9), t.Intn(9)), s2})
+				switch t.Intn(3) {
+				case 0:
+					steps = append(steps, c13Step{"method-kw", fmt.Sprintf(".mb(%d, k: %d)", t.Intn(9), t.Intn(9)), s2})
+				case 1:
+					steps = append(steps, c13Step{"method-kw", fmt.Sprintf(".mb(j: %d, %d, k: %d)", t.Intn(9), t.Intn(9), t.Intn(9)), s2})
+				default:
+					steps = append(steps, c13Step{"method-kw", fmt.Sprintf(".mb(%d, **{k: %d, z: 1})", t.Intn(9), t.Intn(9)), s2})
+				}
 			case 2:
 				sl := next()
 				steps = append(steps, c13Step{"lit", fmt.Sprintf(".{|x| S(%d); x}", sl), sl})
@@ -149,6 +171,36 @@ func c13Gen(t *tape.Tape) (prelude, recv string, steps []c13Step, nslots int) {
 			}
 		}
 		return prelude, recv, steps, id - 1
+	}
+	if t.Chance(1, 3) {
+		// built-in properties of strings/arrays, some with keyword arguments; the plain
+		// chain is the reference, so whatever they do (incl. failing) must commute
+		recv = []string{"\"a,b;c\"", "\"Hello World\"", "\"abcdefgh\""}[t.Intn(3)]
+		builtins := []string{".uc", ".lc", ".len", ".split(sep: \",\")", ".split(sep: \";\")", ".split(sep: 1)", ".truncate(5, end: \"~\")", ".truncate(3)",
+			".rev", ".S", ".repr", ".sum", ".join(\"-\")", ".first", ".last", ".+(\"z\")", ".*(2)", ".at(1)", ".keys", ".capital", ".I", ".sub(\"b\", \"B\")", ".has?(\"a\")", ".sort", ".max", ".S(base: 2)"}
+		for i := 0; i < k; i++ {
+			if t.Chance(1, 4) {
+				sl := next()
+				steps = append(steps, c13Step{"lit", fmt.Sprintf(".{|x| S(%d); x}", sl), sl})
+				continue
+			}
+			b := builtins[t.Intn(len(builtins))]
+			kind := "builtin"
+			if strings.Contains(b, ": ") {
+				kind = "builtin-kw"
+			}
+			// a name the Either object itself inherits (from Obj/BaseObj/Iterable) is not a
+			// proxied step but the Either's own property: classified separately
+			name := strings.TrimPrefix(b, ".")
+			if i := strings.IndexAny(name, "("); i >= 0 {
+				name = name[:i]
+			}
+			if ownProp != nil && ownProp(name) {
+				kind = "ownprop"
+			}
+			steps = append(steps, c13Step{kind, b, 0})
+		}
+		return "", recv, steps, id - 1
 	}
 	recv = fmt.Sprint(1 + t.Intn(9))
 	for i := 0; i < k; i++ {
@@ -220,7 +272,7 @@ func (c *c13Check) Run(seed, run uint64, rec []uint32, st Stats, only *Viol) []V
 	} else {
 		t = tape.New(seed^hashID("C13"), run)
 	}
-	prelude, recv, steps, nslots := c13Gen(t)
+	prelude, recv, steps, nslots := c13Gen(t, c.ownProp)
 	chain := ""
 	kinds := []string{}
 	for _, sp := range steps {
@@ -326,8 +378,11 @@ func (c *c13Check) Run(seed, run uint64, rec []uint32, st Stats, only *Viol) []V
 			// `.A` or the callee trace of the wrapped chain disagrees with the plain one
 			resp := "accessor"
 			for j := 1; j <= len(steps); j++ {
-				if !c.commutes(prelude, recv, steps[:j], byID) {
+				if ok, symptom := c.commutes(prelude, recv, steps[:j], byID); !ok {
 					resp = steps[j-1].kind
+					if symptom != "" && resp != "ownprop" {
+						resp = symptom
+					}
 					break
 				}
 			}
@@ -444,7 +499,10 @@ func (c *c13Check) Run(seed, run uint64, rec []uint32, st Stats, only *Viol) []V
 }
 
 // commutes evaluates a chain plain and wrapped and compares `.A` and the callee trace.
-func (c *c13Check) commutes(prelude, recv string, steps []c13Step, byID map[int]harness.Ret) bool {
+// symptom names the recorded Wrappable#_missing finding when the wrapped chain captured
+// "property `call` is not defined." because the looked-up property was absent (plain:
+// NoPropErr naming the property -> "missing") or not callable (plain: its value -> "valueprop").
+func (c *c13Check) commutes(prelude, recv string, steps []c13Step, byID map[int]harness.Ret) (bool, string) {
 	chain := ""
 	for _, sp := range steps {
 		chain += sp.src
@@ -452,23 +510,31 @@ func (c *c13Check) commutes(prelude, recv string, steps []c13Step, byID map[int]
 	astA, errA := harness.Parse(prelude + recv + chain + "\n")
 	astB, errB := harness.Parse(prelude + "e := " + recv + ".try" + chain + "\nrA := e.A\n")
 	if errA != nil || errB != nil {
-		return true
+		return true, ""
 	}
 	rA := c.it.Run(astA, &harness.Callee{PlanByID: byID})
 	rB := c.it.Run(astB, &harness.Callee{PlanByID: byID})
 	a := outcomeOf(rA)
 	if idsString(harness.TraceIDs(rB.Trace)) != a.trace || rB.Err != nil {
-		return false
+		return false, ""
 	}
 	arr, ok := getVar(rB.Scope, "rA").(*object.PanArr)
 	if !ok || len(arr.Elems) != 2 {
-		return false
+		return false, ""
+	}
+	symptom := ""
+	if k, m, isErr := errOf(arr.Elems[1]); isErr && k == "NoPropErr" && m == "property `call` is not defined." {
+		if a.raised && a.kind == "NoPropErr" && strings.HasPrefix(a.msg, "property `") && a.msg != m {
+			symptom = "missing"
+		} else if !a.raised {
+			symptom = "valueprop"
+		}
 	}
 	if a.raised {
 		k, m, ok := errOf(arr.Elems[1])
-		return ok && k == a.kind && m == a.msg && arr.Elems[0] == object.BuiltInNil
+		return ok && k == a.kind && m == a.msg && arr.Elems[0] == object.BuiltInNil, symptom
 	}
-	return arr.Elems[0].Inspect() == a.val && arr.Elems[1] == object.BuiltInNil
+	return arr.Elems[0].Inspect() == a.val && arr.Elems[1] == object.BuiltInNil, symptom
 }
 
 func (c *c13Check) Evidence(st Stats, tier string) (map[string]interface{}, []string) {
